@@ -646,6 +646,120 @@ def r9_bare_name_selects_compact_entry_by_default_type(ctx, rule="C13.R9"):
     ctx.require(rule, 1)
 
 
+_NAME_ADT = "rusty_parser::core::name::Name"
+_INSPECT = ("qualifier", "is_bare", "is_qualified", "is_bare_or_of_type", "demand_bare", "demand_qualified")
+_BARE_OF = ("to_bare_name", "as_bare_name", "demand_bare", "bare_name")
+
+
+def _same_value(a, b):
+    return mir.show_origin(mir.strip_all(a)) == mir.show_origin(mir.strip_all(b))
+
+
+def _inspects_param(prog, fn, k, depth=3, seen=None):
+    """fn looks at the qualifier of its k-th parameter (a Name), directly or in a callee."""
+    seen = seen or set()
+    if (fn.id, k) in seen or fn.body is None:
+        return False
+    seen.add((fn.id, k))
+    for body in common.all_bodies(fn)[:1]:
+        pv = mir.Prov(body)
+        target = ("param", k)
+        for b, t in body.calls():
+            last = mir.callee_path(t).split("::")[-1]
+            for j, a in enumerate(t["args"]):
+                o = mir.strip_all(pv.of_operand(a))
+                if tuple(o[:2]) != target:
+                    continue
+                if j == 0 and last in _INSPECT:
+                    return True
+                g = prog.fns.get(t.get("res") or mir.callee_of(t))
+                if g is not None and depth and _inspects_param(prog, g, j, depth - 1, seen):
+                    return True
+        for sw in mir.enum_switches(prog, body):
+            if sw.adt == _NAME_ADT:
+                o = mir.strip_all(pv.of_place(sw.place))
+                if tuple(o[:2]) == target:
+                    return True
+    return False
+
+
+def _looked_at_before(prog, fn, body, pv, name_origin, site_block):
+    """Some block that dominates site_block looks at the qualifier of the value name_origin."""
+    for b, t in body.calls():
+        if b == site_block or not body.dominates(b, site_block):
+            continue
+        last = mir.callee_path(t).split("::")[-1]
+        for j, a in enumerate(t["args"]):
+            if not _same_value(pv.of_operand(a), name_origin):
+                continue
+            if j == 0 and last in _INSPECT:
+                return True
+            g = prog.fns.get(t.get("res") or mir.callee_of(t))
+            if g is not None and _inspects_param(prog, g, j):
+                return True
+    for sw in mir.enum_switches(prog, body):
+        if sw.adt == _NAME_ADT and body.dominates(sw.bb, site_block) and _same_value(pv.of_place(sw.place), name_origin):
+            return True
+    return False
+
+
+def r10_written_suffix_is_looked_at(ctx, rule="C13.R10"):
+    """Where the checker builds a Name from the bare part of a name the programmer wrote (Name::new /
+    bare / qualified over to_bare_name / as_bare_name / demand_bare of it), the suffix of the written
+    name has been looked at first - in the function (a dominating qualifier() / is_bare() / match on the
+    name, or a call of a function that does), or, for a parameter, at every call site.  Otherwise a
+    wrong suffix is dropped without complaint (`A!(1)` for `DIM A(5) AS INTEGER`)."""
+    prog = ctx.prog
+    n = 0
+    for f in sorted(prog.fns.values(), key=lambda x: x.id):
+        if f.crate != "rusty_linter" or f.body is None or "/src/converter/" not in (f.file or ""):
+            continue
+        if common.is_test_fn(f) if hasattr(common, "is_test_fn") else False:
+            continue
+        body = f.body
+        pv = mir.Prov(body)
+        for b, t in body.calls():
+            cp = mir.callee_path(t)
+            if not (cp.split("::")[-1] in ("new", "bare", "qualified") and "::Name::" in "::" + cp) or not t["args"]:
+                continue
+            o = mir.strip_all(pv.of_operand(t["args"][0]))
+            while o[0] == "clone":
+                o = mir.strip_all(o[1])
+            if not (o[0] == "call" and o[1].split("::")[-1] in _BARE_OF and o[2]):
+                continue
+            src = mir.strip_all(o[2][0])
+            n += 1
+            key = "%s:%s" % (rule, f.name)
+            ok = _looked_at_before(prog, f, body, pv, src, b)
+            how = "looked at in the function"
+            if not ok and src[0] == "param":
+                sites = []
+                for g in prog.fns.values():
+                    if g.body is None:
+                        continue
+                    for gb, gt in g.body.calls():
+                        if (gt.get("res") or mir.callee_of(gt)) == f.id:
+                            sites.append((g, gb, gt))
+                if sites:
+                    ok = True
+                    for g, gb, gt in sites:
+                        gpv = mir.Prov(g.body)
+                        if src[1] >= len(gt["args"]):
+                            ok = False
+                            break
+                        arg = gpv.of_operand(gt["args"][src[1]])
+                        if not _looked_at_before(prog, g, g.body, gpv, arg, gb):
+                            ok = False
+                            break
+                    how = "looked at before each of its %d call sites" % len(sites)
+            ctx.decide(ok, rule, key, "%s:%s" % (f.file, t.get("ln")), "suffix of the written name " + how,
+                       "%s builds a Name from the bare part of %s although nothing has looked at the suffix the "
+                       "programmer wrote: a wrong suffix is dropped and the name resolves to the entry of another "
+                       "type instead of being refused" % (f.name, mir.show_origin(src)[:60]))
+    ctx.analysed_units(rule, name_constructions=n)
+    ctx.require(rule, 2)
+
+
 def run(ctx):
     common.install(ctx)
     from . import c09
@@ -659,3 +773,4 @@ def run(ctx):
     r7_extended_table(ctx)
     r8_function_name_writable_only_inside_it(ctx)
     r9_bare_name_selects_compact_entry_by_default_type(ctx)
+    r10_written_suffix_is_looked_at(ctx)
